@@ -86,7 +86,7 @@ def main():
                 print("MUTANT %s/%s: pattern occurs %d times in %s -- skipped" % (prop, name, src.count(old), path))
                 continue
             open(full, "w").write(src.replace(old, new))
-            build = sh("cd %s && GOFLAGS=-mod=mod GOPROXY=off GOSUMDB=off go build ./... 2>&1 | grep -v conda | tail -3" % WT)
+            build = sh("cd %s && GOTOOLCHAIN=local GOFLAGS=-mod=mod GOPROXY=off GOSUMDB=off /root/go/pkg/mod/golang.org/toolchain@v0.0.1-go1.24.2.linux-amd64/bin/go build ./... 2>&1 | grep -v conda | tail -3" % WT)
             out = sh("cd %s && VERIF_REPO=%s ./check %s 2>&1 | grep -v conda" % (ROOT, WT, prop))
             open(full, "w").write(src)
             last = out.strip().splitlines()[-1] if out.strip() else "(no output)"
@@ -101,6 +101,18 @@ def main():
                 if isinstance(fi, dict) and "distinct_signatures" in fi:
                     extra = " | all: " + "; ".join(sorted(fi["distinct_signatures"].keys()))
                 sig += extra
+                if isinstance(fi, dict):
+                    keep = {k: fi[k] for k in ("op", "status", "json_body", "panic", "returned", "observed", "documented", "error", "db_before", "db_after",
+                                               "json", "tag") if k in fi}
+                    keep.update({k: v for k, v in fi.items() if k.startswith("expected_")})
+                    if "json" in keep:
+                        keep.pop("op", None)
+                    if "script" in fi:
+                        keep["script_tail"] = fi["script"][-3:]
+                    sig += " || input: " + json.dumps(keep)[:1500]
+                elif broken and isinstance(d.get("no_longer_checks"), list):
+                    det = d["no_longer_checks"][0].get("detail")
+                    sig += " || " + (json.dumps(det) if not isinstance(det, str) else det)[:300]
             rows.append((prop, name, "compiles" if not build.strip() else "BUILD: " + build.strip()[:80], last.split(" replay=")[0] + (" no-failing-input-found" if "no-failing-input-found" in last else ""), broken, sig))
             print("| %s | %s | %s | %s | %s | %s |" % rows[-1])
             sys.stdout.flush()
